@@ -1,6 +1,7 @@
 package main
 
 import (
+	"go/token"
 	"fmt"
 	"sort"
 	"strings"
@@ -23,6 +24,53 @@ type gbyTable struct {
 	fields     []gbyField
 	requires   map[string][]string // fnName → lock ids (W) that the caller must hold; suffix "/R" = at least read
 	exceptions map[string]string   // "fnName|T.f" or "fnName|*" → reason
+	// elems: slice fields ("T.f") whose ELEMENTS are modified in place under the lock: reading an
+	// element through a copy of the slice header taken earlier (hdr := p.f; unlock; hdr[i]) is an
+	// access of the guarded data too, at the element load.
+	elems map[string]bool
+}
+
+// elemLoadOf: in is a load of an element of a slice that was loaded from one of the fields in
+// elems (through phis and re-slicing); returns "T.f".
+func elemLoadOf(in ssa.Instruction, elems map[string]bool) (string, bool) {
+	if len(elems) == 0 {
+		return "", false
+	}
+	u, ok := in.(*ssa.UnOp)
+	if !ok || u.Op != token.MUL {
+		return "", false
+	}
+	ia, ok := u.X.(*ssa.IndexAddr)
+	if !ok {
+		return "", false
+	}
+	seen := map[ssa.Value]bool{}
+	var rec func(v ssa.Value) (string, bool)
+	rec = func(v ssa.Value) (string, bool) {
+		v = stripConv(v)
+		if seen[v] {
+			return "", false
+		}
+		seen[v] = true
+		switch x := v.(type) {
+		case *ssa.UnOp:
+			if x.Op == token.MUL {
+				if t, f, _, ok := fieldOf(x.X); ok && elems[t+"."+f] {
+					return t + "." + f, true
+				}
+			}
+		case *ssa.Slice:
+			return rec(x.X)
+		case *ssa.Phi:
+			for _, e := range x.Edges {
+				if k, ok := rec(e); ok {
+					return k, true
+				}
+			}
+		}
+		return "", false
+	}
+	return rec(ia.X)
 }
 
 func held(st *tsState, lock string, needWrite bool) bool {
@@ -123,6 +171,9 @@ func ruleGuardedBy(p *Prog, r *Report, rule, text string, pkgs []string, tab gby
 						}
 					}
 				}
+				if _, ok := elemLoadOf(in, tab.elems); ok {
+					relevant = true
+				}
 			})
 			if !relevant {
 				continue
@@ -145,6 +196,9 @@ func ruleGuardedBy(p *Prog, r *Report, rule, text string, pkgs []string, tab gby
 				}
 				if _, isDefer := in.(*ssa.Defer); isDefer {
 					return false
+				}
+				if _, ok := elemLoadOf(in, tab.elems); ok {
+					return true
 				}
 				if cc := callCommon(in); cc != nil {
 					if callee := staticCallee(cc); callee != nil {
@@ -184,6 +238,24 @@ func ruleGuardedBy(p *Prog, r *Report, rule, text string, pkgs []string, tab gby
 								mode = "write"
 							}
 							bad = append(bad, rep{"unguarded-" + mode + ":" + t + "." + f, fmt.Sprintf("%s of %s.%s at %s without %s held (lock state {%s})", mode, t, f, p.Pos(x.Pos()), gf.lock, st.cntKey()), p.Pos(x.Pos())})
+							break
+						}
+					}
+				case *ssa.UnOp:
+					k, _ := elemLoadOf(x, tab.elems)
+					gf := byField[k]
+					nacc++
+					if _, ok := tab.exceptions[name+"|"+k]; ok {
+						usedExc[name+"|"+k] = true
+						continue
+					}
+					if _, ok := tab.exceptions[name+"|*"]; ok {
+						usedExc[name+"|*"] = true
+						continue
+					}
+					for _, st := range states {
+						if !held(st, gf.lock, false) {
+							bad = append(bad, rep{"unguarded-element-read:" + k, fmt.Sprintf("element of %s read at %s without %s held (lock state {%s}): the elements are rewritten in place under the lock, a slice header copied earlier does not protect them", k, p.Pos(x.Pos()), gf.lock, st.cntKey()), p.Pos(x.Pos())})
 							break
 						}
 					}
